@@ -1036,11 +1036,28 @@ enum BlockingMode {
     Timeout(Duration),
 }
 
-#[allow(clippy::uninit_vec, clippy::type_complexity)]
+#[allow(clippy::type_complexity)]
 fn recv(
     fd: c_int,
     blocking_mode: BlockingMode,
 ) -> Result<(Vec<u8>, Vec<OsOpaqueIpcChannel>, Vec<OsIpcSharedMemory>), UnixError> {
+    loop {
+        // A message that its sender abandoned part-way through (the sender died, or its
+        // `send` failed) is discarded. It says nothing about the channel itself, which
+        // other senders may still be using, so go on to the next message.
+        if let Some(message) = recv_message(fd, blocking_mode)? {
+            return Ok(message);
+        }
+    }
+}
+
+/// Receives one message. `Ok(None)` means that the message was abandoned by its
+/// sender before all of its fragments were sent; what was received of it is dropped.
+#[allow(clippy::uninit_vec, clippy::type_complexity)]
+fn recv_message(
+    fd: c_int,
+    blocking_mode: BlockingMode,
+) -> Result<Option<(Vec<u8>, Vec<OsOpaqueIpcChannel>, Vec<OsIpcSharedMemory>)>, UnixError> {
     let (mut channels, mut shared_memory_regions) = (Vec::new(), Vec::new());
 
     // First fragments begins with a header recording the total data length.
@@ -1088,7 +1105,7 @@ fn recv(
 
     if total_size == main_data_buffer.len() {
         // Fast path: no fragments.
-        return Ok((main_data_buffer, channels, shared_memory_regions));
+        return Ok(Some((main_data_buffer, channels, shared_memory_regions)));
     }
 
     // Reassemble fragments.
@@ -1130,12 +1147,13 @@ fn recv(
 
         match result.cmp(&0) {
             cmp::Ordering::Greater => continue,
-            cmp::Ordering::Equal => return Err(UnixError::ChannelClosed),
+            // End of file on the dedicated channel before the whole message arrived.
+            cmp::Ordering::Equal => return Ok(None),
             cmp::Ordering::Less => return Err(UnixError::last()),
         }
     }
 
-    Ok((main_data_buffer, channels, shared_memory_regions))
+    Ok(Some((main_data_buffer, channels, shared_memory_regions)))
 }
 
 // https://github.com/servo/ipc-channel/issues/192
